@@ -41,10 +41,10 @@ Lemma walk_step cfg s l s' :
   walk_inv cfg s -> (forall o ok, l = LOp o ok -> op_fine o = true) ->
   step cfg s l = Some s' -> walk_inv cfg s'.
 Proof.
-  intros [Hw Hc] Hf H. destruct l as [o ok| | | | | | | | | | | | |];
+  intros [Hw Hc] Hf H. destruct l as [o ok| | | | | | | | | | | | | |];
     try (apply step_nonop_cur in H; [|intros; discriminate]; destruct H as [E1 E2];
          unfold walk_inv; rewrite E1, E2; now split).
-  cbn [step] in H. destruct (is_nil (pend s)); [|discriminate].
+  unfold step in H. cbn [stepx] in H. destruct (is_nil (pend s)); [|discriminate].
   destruct (op_result cfg (cur s) o) as [to|] eqn:E.
   - destruct ok; [|discriminate]. inversion H; subst; clear H. unfold walk_inv; cbn [hist cur].
     split.
@@ -73,15 +73,15 @@ Qed.
 Lemma isrunning_spec cfg s b s' :
   step cfg s (LIsRun b) = Some s' -> b = is_running (cur s) /\ s' = s.
 Proof.
-  cbn [step]. unfold is_running. destruct (st_eqb (cur s) Running), b; cbn; intros H; inversion H; auto.
+  unfold step. cbn [stepx]. unfold is_running. destruct (st_eqb (cur s) Running), b; cbn; intros H; inversion H; auto.
 Qed.
 
 Lemma isrunning_enabled cfg s : step cfg s (LIsRun (is_running (cur s))) = Some s.
-Proof. cbn [step]. unfold is_running. now destruct (st_eqb (cur s) Running). Qed.
+Proof. unfold step. cbn [stepx]. unfold is_running. now destruct (st_eqb (cur s) Running). Qed.
 
 Lemma getstate_spec cfg s v s' : step cfg s (LGet v) = Some s' -> v = cur s /\ s' = s.
 Proof.
-  cbn [step]. destruct (st_eqb (cur s) v) eqn:E; intros H; inversion H; subst.
+  unfold step. cbn [stepx]. destruct (st_eqb (cur s) v) eqn:E; intros H; inversion H; subst.
   apply st_eqb_eq in E. auto.
 Qed.
 
